@@ -194,8 +194,6 @@ def opt_hint(rows, obj, names):
     val = sum(F(a) * P[v] for v, a in obj.items())
     d = _lcm(list(P.values()) or [F(1)])
     q = {n: int(P[n] * d) for n in names}
-    if any(abs(x) > BOX * d for x in q.values()):
-        return base
     vn, vd = val.numerator, val.denominator
     t = {"co": {v: a * vd for v, a in obj.items()}, "c": vn, "k": vd}
     c = cert(rows, names, t, exact_only=True, box=False)
